@@ -230,6 +230,42 @@ Proof.
   - exists 10%nat. split; vm_compute; reflexivity.
 Qed.
 
+(* ------------------------------------------------------------------ oneOf -> internally / adjacently tagged enums
+   (corpus/convert/enum_tagged_example.json; T_tag is the REAL type space): Ev is internally tagged (two struct
+   variants, a unit variant), Msg adjacently tagged (newtype, struct, tuple and unit variants) *)
+Definition D_tag : defs := [([69; 118]%N, (SObj None None None None (mkNumv None None None None None) (mkStrv None None None) ItemsAbsent (@nil schema) None None None false (@nil (ustring * schema)) (@nil ustring) None None None None None (Some [(SObj (Some [TObject]) None None None (mkNumv None None None None None) (mkStrv None None None) ItemsAbsent (@nil schema) None None None false [([97; 116]%N, (SObj (Some [TInteger]) None None None (mkNumv None None None None None) (mkStrv None None None) ItemsAbsent (@nil schema) None None None false (@nil (ustring * schema)) (@nil ustring) None None None None None None None None None None)); ([116; 97; 103; 103]%N, (SObj (Some [TString]) None (Some [(JStr [115; 116; 97; 114; 116]%N)]) None (mkNumv None None None None None) (mkStrv None None None) ItemsAbsent (@nil schema) None None None false (@nil (ustring * schema)) (@nil ustring) None None None None None None None None None None)); ([119; 104; 111]%N, (SObj (Some [TString]) None None None (mkNumv None None None None None) (mkStrv None None None) ItemsAbsent (@nil schema) None None None false (@nil (ustring * schema)) (@nil ustring) None None None None None None None None None None))] [[97; 116]%N; [116; 97; 103; 103]%N] (Some (SBool false)) None None None None None None None None None); (SObj (Some [TObject]) None None None (mkNumv None None None None None) (mkStrv None None None) ItemsAbsent (@nil schema) None None None false [([116; 97; 103; 103]%N, (SObj (Some [TString]) None (Some [(JStr [115; 116; 111; 112]%N)]) None (mkNumv None None None None None) (mkStrv None None None) ItemsAbsent (@nil schema) None None None false (@nil (ustring * schema)) (@nil ustring) None None None None None None None None None None))] [[116; 97; 103; 103]%N] (Some (SBool false)) None None None None None None None None None); (SObj (Some [TObject]) None None None (mkNumv None None None None None) (mkStrv None None None) ItemsAbsent (@nil schema) None None None false [([115; 117; 98]%N, (SObj None None None None (mkNumv None None None None None) (mkStrv None None None) ItemsAbsent (@nil schema) None None None false (@nil (ustring * schema)) (@nil ustring) None None None None None None None (Some [80]%N) None None)); ([116; 97; 103; 103]%N, (SObj (Some [TString]) None (Some [(JStr [110; 111; 116; 101; 45; 105; 116]%N)]) None (mkNumv None None None None None) (mkStrv None None None) ItemsAbsent (@nil schema) None None None false (@nil (ustring * schema)) (@nil ustring) None None None None None None None None None None)); ([116; 101; 120; 116]%N, (SObj (Some [TString]) None None None (mkNumv None None None None None) (mkStrv (Some 5%N) None None) ItemsAbsent (@nil schema) None None None false (@nil (ustring * schema)) (@nil ustring) None None None None None None None None None None))] [[115; 117; 98]%N; [116; 97; 103; 103]%N; [116; 101; 120; 116]%N] (Some (SBool false)) None None None None None None None None None)]) None None None None)); ([77; 115; 103]%N, (SObj None None None None (mkNumv None None None None None) (mkStrv None None None) ItemsAbsent (@nil schema) None None None false (@nil (ustring * schema)) (@nil ustring) None None None None None (Some [(SObj (Some [TObject]) None None None (mkNumv None None None None None) (mkStrv None None None) ItemsAbsent (@nil schema) None None None false [([99]%N, (SObj (Some [TString]) None None None (mkNumv None None None None None) (mkStrv None None None) ItemsAbsent (@nil schema) None None None false (@nil (ustring * schema)) (@nil ustring) None None None None None None None None None None)); ([116]%N, (SObj (Some [TString]) None (Some [(JStr [116; 101; 120; 116]%N)]) None (mkNumv None None None None None) (mkStrv None None None) ItemsAbsent (@nil schema) None None None false (@nil (ustring * schema)) (@nil ustring) None None None None None None None None None None))] [[99]%N; [116]%N] (Some (SBool false)) None None None None None None None None None); (SObj (Some [TObject]) None None None (mkNumv None None None None None) (mkStrv None None None) ItemsAbsent (@nil schema) None None None false [([99]%N, (SObj (Some [TObject]) None None None (mkNumv None None None None None) (mkStrv None None None) ItemsAbsent (@nil schema) None None None false [([120]%N, (SObj (Some [TInteger]) None None None (mkNumv None None None None None) (mkStrv None None None) ItemsAbsent (@nil schema) None None None false (@nil (ustring * schema)) (@nil ustring) None None None None None None None None None None)); ([121]%N, (SObj (Some [TInteger]) None None None (mkNumv None None None None None) (mkStrv None None None) ItemsAbsent (@nil schema) None None None false (@nil (ustring * schema)) (@nil ustring) None None None None None None None None None None))] [[120]%N; [121]%N] (Some (SBool false)) None None None None None None None None None)); ([116]%N, (SObj (Some [TString]) None (Some [(JStr [112; 111; 105; 110; 116]%N)]) None (mkNumv None None None None None) (mkStrv None None None) ItemsAbsent (@nil schema) None None None false (@nil (ustring * schema)) (@nil ustring) None None None None None None None None None None))] [[99]%N; [116]%N] (Some (SBool false)) None None None None None None None None None); (SObj (Some [TObject]) None None None (mkNumv None None None None None) (mkStrv None None None) ItemsAbsent (@nil schema) None None None false [([99]%N, (SObj (Some [TArray]) None None None (mkNumv None None None None None) (mkStrv None None None) ItemsTuple [(SObj (Some [TString]) None None None (mkNumv None None None None None) (mkStrv None None None) ItemsAbsent (@nil schema) None None None false (@nil (ustring * schema)) (@nil ustring) None None None None None None None None None None); (SObj (Some [TBoolean]) None None None (mkNumv None None None None None) (mkStrv None None None) ItemsAbsent (@nil schema) None None None false (@nil (ustring * schema)) (@nil ustring) None None None None None None None None None None)] None (Some 2%N) (Some 2%N) false (@nil (ustring * schema)) (@nil ustring) None None None None None None None None None None)); ([116]%N, (SObj (Some [TString]) None (Some [(JStr [112; 97; 105; 114]%N)]) None (mkNumv None None None None None) (mkStrv None None None) ItemsAbsent (@nil schema) None None None false (@nil (ustring * schema)) (@nil ustring) None None None None None None None None None None))] [[99]%N; [116]%N] (Some (SBool false)) None None None None None None None None None); (SObj (Some [TObject]) None None None (mkNumv None None None None None) (mkStrv None None None) ItemsAbsent (@nil schema) None None None false [([116]%N, (SObj (Some [TString]) None (Some [(JStr [112; 105; 110; 103]%N)]) None (mkNumv None None None None None) (mkStrv None None None) ItemsAbsent (@nil schema) None None None false (@nil (ustring * schema)) (@nil ustring) None None None None None None None None None None))] [[116]%N] (Some (SBool false)) None None None None None None None None None)]) None None None None)); ([80]%N, (SObj (Some [TObject]) None None None (mkNumv None None None None None) (mkStrv None None None) ItemsAbsent (@nil schema) None None None false [([122]%N, (SObj (Some [TBoolean]) None None None (mkNumv None None None None None) (mkStrv None None None) ItemsAbsent (@nil schema) None None None false (@nil (ustring * schema)) (@nil ustring) None None None None None None None None None None))] [[122]%N] None None None None None None None None None None)); ([84; 111; 112]%N, (SObj (Some [TObject]) None None None (mkNumv None None None None None) (mkStrv None None None) ItemsAbsent (@nil schema) None None None false [([101; 118]%N, (SObj None None None None (mkNumv None None None None None) (mkStrv None None None) ItemsAbsent (@nil schema) None None None false (@nil (ustring * schema)) (@nil ustring) None None None None None None None (Some [69; 118]%N) None None)); ([109; 115; 103; 115]%N, (SObj (Some [TArray]) None None None (mkNumv None None None None None) (mkStrv None None None) ItemsSingle [(SObj None None None None (mkNumv None None None None None) (mkStrv None None None) ItemsAbsent (@nil schema) None None None false (@nil (ustring * schema)) (@nil ustring) None None None None None None None (Some [77; 115; 103]%N) None None)] None None None false (@nil (ustring * schema)) (@nil ustring) None None None None None None None None None None))] [[101; 118]%N; [109; 115; 103; 115]%N] None None None None None None None None None None))].
+Definition T_tag : space := (mkSpace [(1%N, (mkEntry (DEnum [69; 118]%N None (TagInternal [116; 97; 103; 103]%N) [(mkVariant [115; 116; 97; 114; 116]%N [83; 116; 97; 114; 116]%N (VStruct [(mkProp [97; 116]%N RNone PRequired 5%N); (mkProp [119; 104; 111]%N RNone POptional 7%N)])); (mkVariant [115; 116; 111; 112]%N [83; 116; 111; 112]%N VSimple); (mkVariant [110; 111; 116; 101; 45; 105; 116]%N [78; 111; 116; 101; 73; 116]%N (VStruct [(mkProp [115; 117; 98]%N RNone PRequired 3%N); (mkProp [116; 101; 120; 116]%N RNone PRequired 8%N)]))] true (@nil bespoke)) (@nil ustring))); (2%N, (mkEntry (DEnum [77; 115; 103]%N None (TagAdjacent [116]%N [99]%N) [(mkVariant [116; 101; 120; 116]%N [84; 101; 120; 116]%N (VItem 6%N)); (mkVariant [112; 111; 105; 110; 116]%N [80; 111; 105; 110; 116]%N (VStruct [(mkProp [120]%N RNone PRequired 5%N); (mkProp [121]%N RNone PRequired 5%N)])); (mkVariant [112; 97; 105; 114]%N [80; 97; 105; 114]%N (VTuple [6%N; 9%N])); (mkVariant [112; 105; 110; 103]%N [80; 105; 110; 103]%N VSimple)] true (@nil bespoke)) (@nil ustring))); (3%N, (mkEntry (DStruct [80]%N None [(mkProp [122]%N RNone PRequired 9%N)] false) (@nil ustring))); (4%N, (mkEntry (DStruct [84; 111; 112]%N None [(mkProp [101; 118]%N RNone PRequired 1%N); (mkProp [109; 115; 103; 115]%N RNone PRequired 10%N)] false) (@nil ustring))); (5%N, (mkEntry (DInteger [105; 54; 52]%N) (@nil ustring))); (6%N, (mkEntry DString (@nil ustring))); (7%N, (mkEntry (DOption 6%N) (@nil ustring))); (8%N, (mkEntry (DNewtype [69; 118; 84; 101; 120; 116]%N None 6%N (CString (Some 5%N) None None)) (@nil ustring))); (9%N, (mkEntry DBoolean (@nil ustring))); (10%N, (mkEntry (DVec 2%N) (@nil ustring)))] 11%N (mkSettings None (@nil ustring) false [58; 58; 32; 115; 116; 100; 32; 58; 58; 32; 99; 111; 108; 108; 101; 99; 116; 105; 111; 110; 115; 32; 58; 58; 32; 72; 97; 115; 104; 77; 97; 112]%N) false false false false (@nil ustring)).
+Definition v_tag_1 : json := (JObj [([101; 118]%N, (JObj [([97; 116]%N, (JInt (3)%Z)); ([116; 97; 103; 103]%N, (JStr [115; 116; 97; 114; 116]%N))])); ([109; 115; 103; 115]%N, (JArr [(JObj [([99]%N, (JStr [104; 105]%N)); ([116]%N, (JStr [116; 101; 120; 116]%N))]); (JObj [([99]%N, (JObj [([120]%N, (JInt (1)%Z)); ([121]%N, (JInt (2)%Z))])); ([116]%N, (JStr [112; 111; 105; 110; 116]%N))]); (JObj [([99]%N, (JArr [(JStr [97]%N); (JBool true)])); ([116]%N, (JStr [112; 97; 105; 114]%N))]); (JObj [([116]%N, (JStr [112; 105; 110; 103]%N))])]))]).
+Definition v_tag_2 : json := (JObj [([101; 118]%N, (JObj [([115; 117; 98]%N, (JObj [([122]%N, (JBool false))])); ([116; 97; 103; 103]%N, (JStr [110; 111; 116; 101; 45; 105; 116]%N)); ([116; 101; 120; 116]%N, (JStr [97; 98; 99]%N))])); ([109; 115; 103; 115]%N, (JArr (@nil json)))]).
+
+Example C02F_tag_in_frag : in_frag Sanitize.ascii_classes D_tag = true.
+Proof. vm_compute. reflexivity. Qed.
+
+Example C02F_tag_convert : convert_doc Sanitize.ascii_classes D_tag = Some T_tag.
+Proof. vm_compute. reflexivity. Qed.
+
+Example C02F_tag_accepted_1 : exists f, de always no_re T_tag f 4%N v_tag_1 <> None.
+Proof.
+  apply (C02F_fragment_sound Sanitize.ascii_classes always no_re no_re D_tag T_tag) with (r := [84; 111; 112]%N).
+  - intros f n s _ H. discriminate H.
+  - exact C02F_tag_in_frag.
+  - exact C02F_tag_convert.
+  - vm_compute. right. right. right. left. reflexivity.
+  - vm_compute. reflexivity.
+  - exists 10%nat. split; vm_compute; reflexivity.
+Qed.
+
+Example C02F_tag_accepted_2 : exists f, de always no_re T_tag f 4%N v_tag_2 <> None.
+Proof.
+  apply (C02F_fragment_sound Sanitize.ascii_classes always no_re no_re D_tag T_tag) with (r := [84; 111; 112]%N).
+  - intros f n s _ H. discriminate H.
+  - exact C02F_tag_in_frag.
+  - exact C02F_tag_convert.
+  - vm_compute. right. right. right. left. reflexivity.
+  - vm_compute. reflexivity.
+  - exists 10%nat. split; vm_compute; reflexivity.
+Qed.
+
 (* a by-value cycle (needs a Box from break_cycles) is outside the fragment *)
 Example C02F_cycle_out : in_frag Sanitize.ascii_classes D_cycle = false.
 Proof. vm_compute. reflexivity. Qed.
